@@ -14,7 +14,7 @@ from pynenc.identifiers.invocation_id import InvocationId
 from pynenc.util.sqlite_utils import TableNames
 from pynenc.util.sqlite_utils import create_sqlite_connection as sqlite_conn
 from pynenc.util.sqlite_utils import (
-    delete_tables_with_prefix,
+    delete_tables,
     get_sqlite_sqlite_db_path,
 )
 
@@ -126,5 +126,5 @@ class SQLiteBroker(BaseBroker):
 
     def purge(self) -> None:
         """Clear all broker messages."""
-        delete_tables_with_prefix(self.sqlite_db_path, self.tables.table_prefix)
+        delete_tables(self.sqlite_db_path, self.tables.all_tables())
         self._init_tables()
